@@ -99,6 +99,10 @@ def cases(rng, tier, shard, nshards):
         cz = rng.random() < 0.5
         z0 = [float(np.round(rng.uniform(-1, 1), 3)), float(np.round(rng.uniform(-1, 1), 3)) if cz else 0.0]
         tree, sing = make_tree(rng, fam)
+        if rng.random() < 0.03 and fam != 'poly':
+            yield dict(family=fam, tree=tree, singularity=sing, z0=z0, n=int(rng.integers(1, 14)), inner_n=int(rng.integers(1, 14)),
+                       nested=True, r=None)
+            continue
         yield dict(family=fam, tree=tree, singularity=sing, z0=z0, n=n,
                    r=None if default_r else float(10.0 ** rng.uniform(-5, 0)),
                    step_ratio=None if default_r else float(np.round(rng.uniform(1.2, 3.0), 2)),
@@ -106,7 +110,64 @@ def cases(rng, tier, shard, nshards):
                    via=str(rng.choice(['taylor', 'derivative', 'Taylor'])))
 
 
+def run_nested(case, ctx):
+    """The expanded function is itself computed with derivative(): F(z) = d/dw f(z + w) at w = 0, element by element.
+    Nothing of one expansion (scratch arrays, state) may reach another one that is in progress."""
+    import numdifftools.fornberg as fb
+    tree = X.from_json(case['tree'])
+    f = X.compile_np(tree)
+    z0 = complex(case['z0'][0], case['z0'][1]) if case['z0'][1] else case['z0'][0]
+    n, inner_n = case['n'], case['inner_n']
+
+    def F(z):
+        z = np.asarray(z)
+        out = np.empty(z.shape, dtype=complex)
+        for idx, zk in np.ndenumerate(z):
+            out[idx] = fb.derivative(lambda w: f(zk + w), 0.0, n=inner_n)[1]
+        return out
+    ctx.count('nested_expansions')
+    try:
+        with np.errstate(all='ignore'):
+            coefs, info = fb.taylor(F, z0, n=n, full_output=True)
+    except Exception as exc:
+        ctx.reject('raised', observed='%s: %s' % (type(exc).__name__, str(exc)[:200]), exc_type=type(exc).__name__,
+                   family=case['family'], n=n, nested=True)
+        return
+    coefs = np.asarray(coefs)
+    err = np.abs(np.asarray(info.error_estimate, dtype=float))
+    if coefs.ndim != 1 or len(coefs) < n + 1 or err.shape != coefs.shape:
+        ctx.reject('too_few_coefficients', observed=[list(coefs.shape), list(err.shape)], expected=n + 1)
+        return
+    ctx.count('default_radius_status_asserted')
+    if info.degenerate or info.failed:
+        ctx.reject('default_radius_reported_degenerate_or_failed', observed=dict(degenerate=bool(info.degenerate), failed=bool(info.failed)),
+                   detail=dict(program='d/dw ' + X.to_str(tree), z0=case['z0'], n=n, inner_n=inner_n, final_radius=float(info.final_radius),
+                               iterations=int(info.iterations)), family=case['family'], n=n, nested=True,
+                   failed=bool(info.failed), degenerate=bool(info.degenerate),
+                   radius_search_kept_growing=bool(float(info.final_radius) >= 1.0))
+        return
+    try:
+        exact, _ = jets.eval_jet(tree, z0, n + 1, D.jctx(), with_noise=False)
+    except Exception:
+        ctx.count('skipped_jet_domain')
+        return
+    R = float(info.final_radius)
+    scale = max(abs(complex((k + 1) * exact[k + 1])) * R ** k for k in range(n + 1))
+    for k in range(n + 1):
+        ex = complex((k + 1) * exact[k + 1])
+        e = abs(complex(coefs[k]) - ex)
+        bound = K_EST * float(err[k]) + 1e-8 * scale / R ** k       # (the inner expansion is itself accurate to ~1e-12 only)
+        ctx.count('nested_coefficients_asserted')
+        if not e <= bound:
+            ctx.reject('coefficient_outside_reported_error', observed=complex(coefs[k]), expected=ex,
+                       detail=dict(k=k, err=e, reported=float(err[k]), bound=bound, R=R, nested=True), family=case['family'], n=n, k=k,
+                       nested=True)
+            return
+
+
 def run_case(case, ctx):
+    if case.get('nested'):
+        return run_nested(case, ctx)
     import numdifftools.fornberg as fb
     tree = X.from_json(case['tree'])
     f = X.compile_np(tree)
@@ -171,7 +232,8 @@ def run_case(case, ctx):
                                                                                      failed=bool(info.failed)),
                        detail=dict(program=X.to_str(tree), z0=case['z0'], n=n, final_radius=float(info.final_radius),
                                    iterations=int(info.iterations)), family=case['family'], n=n,
-                       failed=bool(info.failed), degenerate=bool(info.degenerate))
+                       failed=bool(info.failed), degenerate=bool(info.degenerate),
+                   radius_search_kept_growing=bool(float(info.final_radius) >= 1.0))
             return
     if info.degenerate or info.failed:
         return
@@ -219,7 +281,7 @@ def run_case(case, ctx):
                        case.get('singularity') is not None and max(rs) >= abs(case['singularity'] - z0)),
                    reported_error_is_zero=bool(err[kk] == 0), k_is_power_of_two=bool(kk >= 8 and (kk & (kk - 1)) == 0),
                    coefficient_vanished=bool(abs(complex(coefs[kk])) <= 1e-6 * abs(at['expected'])
-                                             and err[kk] <= 1e-3 * abs(at['expected'])),
+                                             and err[kk] <= 1e-1 * abs(at['expected'])),
                    k_is_multiple_of_eighth_of_fft_length=bool(kk > 0 and kk % max(len(coefs) // 8, 1) == 0))
         return
     rb = 0 if case['r'] is None else int(math.floor(math.log10(case['r'])))
@@ -235,7 +297,8 @@ def classify(wit):
         return 'fft-bin-exact-zero-on-early-radii'
     if wit.get('check') == 'coefficient_outside_reported_error' and f.get('radius_search_went_beyond_nearest_singularity'):
         return 'radius-search-crosses-singularity'
-    if wit.get('check') == 'default_radius_reported_degenerate_or_failed' and f.get('failed') and not f.get('degenerate'):
+    if wit.get('check') == 'default_radius_reported_degenerate_or_failed' and f.get('failed') and not f.get('degenerate') \
+            and f.get('radius_search_kept_growing'):
         return 'radius-search-exhausts-iterations'
     return None
 
